@@ -4,6 +4,8 @@ scratch worktree, confirm it (compiles, suite passes, demonstration fails with t
 change and passes without), store it under /verif/seeded/NAME/, then run the
 property check(s) against /repo with the patch applied and undo it straight
 afterwards.  Writes seeded/NAME/meta.json."""
+import sys as _sys
+_sys.setrecursionlimit(100000)
 import sys, os, subprocess, json, shutil, time, re
 
 name, src, props = sys.argv[1], sys.argv[2], sys.argv[3].split(",")
